@@ -79,9 +79,12 @@ func main() {
 		os.Exit(4)
 	}
 	next := len(evs)
-	last := ebu.OffsetOldest
+	last, prev := ebu.OffsetOldest, ebu.OffsetOldest
 	if next > 0 {
 		last = evs[next-1].Offset
+	}
+	if next > 1 {
+		prev = evs[next-2].Offset
 	}
 	fmt.Fprintf(ack, "START %d\n", next)
 	dead, cancel := context.WithCancel(ctx)
@@ -96,13 +99,16 @@ func main() {
 				os.Exit(5)
 			}
 			fmt.Fprintf(ack, "A %d %d %s\n", i, next, off)
-			last = off
+			prev, last = last, off
 			next++
 		case "S", "R":
 			sub := fmt.Sprintf("sub-%d", i%3)
 			if op == "R" {
-				if err := st.SaveOffset(dead, sub, last); err == nil {
-					fmt.Fprintf(ack, "S %d %s %s\n", i, sub, last)
+				// a save under a dead context, of an older offset: if the store claims it succeeded, that
+				// is what must be found after reopening (and the live save below is skipped)
+				if err := st.SaveOffset(dead, sub, prev); err == nil {
+					fmt.Fprintf(ack, "S %d %s %s\n", i, sub, prev)
+					continue
 				}
 			}
 			if err := st.SaveOffset(ctx, sub, last); err != nil {
